@@ -135,7 +135,8 @@ def _get_reusable(ctx, a):
                                                [q.pid for q in w.procs.values() if q.alive and getattr(q, "cq_id", None) in earlier_cqs
                                                 and getattr(q, "cq_id", None) != r.get("cq_id")])
     for o in ctx.executors:
-        if o["obj"] is not ex and o["kind"] == "reusable":
+        # (only older instances: this bookkeeping may run long after the call returned, when a newer instance exists)
+        if o["obj"] is not ex and o["kind"] == "reusable" and (o["executor_id"] is None or o["executor_id"] < ex.executor_id):
             o["released"] = True
     ctx.get_log.append(info)
     return ex, info
